@@ -387,6 +387,7 @@ struct FShared {
 fn exec_fop(op: &FOp, sh: &FShared, rng: &mut Prng) -> Produced {
     let w = &sh.world;
     let ctx = &w.ctx;
+    let big_ternary_space = w.spec.n >= 32;
     let mut p = Produced { what: format!("{:?}", op), masks: vec![], seeds: vec![], secret: None, pair: None, noise: None, same_c0: None, expand_diff: None };
     let ks = |k: &KSwitchKeys, p: &mut Produced| {
         for pk in k.data().iter().flatten() {
@@ -399,7 +400,11 @@ fn exec_fop(op: &FOp, sh: &FShared, rng: &mut Prng) -> Produced {
     match op {
         FOp::NewKeygen => {
             let kg = KeyGenerator::new(ctx.clone());
-            p.secret = Some(util::h64_u64s(kg.secret_key().data()));
+            // a ternary key of N coefficients has only 3^N values: equal keys are *expected* now and
+            // then for N < 32 (3^8 = 6561), so distinctness is asserted only from N = 32 on
+            if big_ternary_space {
+                p.secret = Some(util::h64_u64s(kg.secret_key().data()));
+            }
         }
         FOp::Pk { seed } => {
             let k = w.keygen.create_public_key(*seed);
@@ -420,7 +425,10 @@ fn exec_fop(op: &FOp, sh: &FShared, rng: &mut Prng) -> Produced {
         }
         FOp::EncPk { zero } => {
             let c = if *zero { w.encryptor.encrypt_zero_new() } else { w.encryptor.encrypt_new(&w.random_plain(rng)) };
-            p.masks.push(mask_hash(&c, ctx));
+            // c1 = pk1*u + e1 (rounded after the modulus switch): its variety is that of the ternary u
+            if big_ternary_space {
+                p.masks.push(mask_hash(&c, ctx));
+            }
             if *zero {
                 let ph = phase(w, &c, &w.sk);
                 let (m, cons) = centred_stats(w, c.parms_id(), &ph, w.spec.scheme == BGV);
@@ -479,7 +487,10 @@ fn exec_fop(op: &FOp, sh: &FShared, rng: &mut Prng) -> Produced {
             let b = w.encryptor.encrypt_symmetric_new_with_u_prng(&pl, &mut BlakeRNG::from_seed(s));
             p.pair = Some((mask_hash(&a, ctx), mask_hash(&b, ctx), None));
             // same mask, but the noise must still be fresh: identical c0 means no randomness was drawn
-            p.same_c0 = Some(a.poly(0) == b.poly(0));
+            // (two independent error vectors of fewer than 16 coefficients do coincide now and then)
+            if w.spec.n >= 16 {
+                p.same_c0 = Some(a.poly(0) == b.poly(0));
+            }
             // the pair shares its mask by construction; it still must differ from everything else
             p.masks.push(mask_hash(&a, ctx));
         }
@@ -501,8 +512,10 @@ fn exec_fop(op: &FOp, sh: &FShared, rng: &mut Prng) -> Produced {
             }
             let (m, _) = centred_stats(w, a.parms_id(), &diff, w.spec.scheme == BGV);
             p.pair = Some((0, 0, Some(m)));
-            p.masks.push(mask_hash(&a, ctx));
-            p.masks.push(mask_hash(&b, ctx));
+            if big_ternary_space {
+                p.masks.push(mask_hash(&a, ctx));
+                p.masks.push(mask_hash(&b, ctx));
+            }
         }
     }
     p
@@ -646,7 +659,7 @@ fn run_freshness(scn: &FScn) -> Result<(Vec<(String, String, String)>, u64, u64)
 }
 
 fn gen_fscn(rng: &mut Prng, run_seed: u64, real_entropy: bool) -> Option<FScn> {
-    let opts = SpecOpts { schemes: vec![BFV, BGV, CKKS], ns: vec![8, 16, 32], min_primes: 1, max_primes: 3, qbits: vec![30, 36, 40, 45, 50, 60], tbits: vec![8, 13, 17], batching: false };
+    let opts = SpecOpts { schemes: vec![BFV, BGV, CKKS], ns: vec![8, 16, 32, 32, 64], min_primes: 1, max_primes: 3, qbits: vec![30, 36, 40, 45, 50, 60], tbits: vec![8, 13, 17], batching: false };
     let spec = gen::draw_spec(rng, &opts)?;
     let nthreads = if real_entropy { 1 } else { *rng.pick(&[1usize, 1, 2, 3]) };
     let n = spec.n;
